@@ -222,8 +222,33 @@ fn eval(ctx: &Ctx, case: &Case) -> Verdict {
         }
     }
     let blocks = rendered[1].1.max(rendered[2].1);
+    // the library's genotype reader on the same four byte strings, with the format and / or the
+    // compression detected or named (truthfully) by the caller, at two thread counts: one result
+    let mut library_reads = 0u64;
+    {
+        let mut first: Option<(crate::props::c18::CreateResult, String)> = None;
+        for (i, c) in containers.iter().enumerate() {
+            for declared in 0..=3u8 {
+                for &threads in case.threads.iter().take(2) {
+                    let got = crate::props::c18::create_in_process_declared(&case.cs, &case.map, std::io::Cursor::new(rendered[i].0.clone()), threads.max(1), declared, c)?;
+                    let what = format!("{} with {} and {} threads", c.label(), ["format and compression detected", "the format named by the caller", "the compression named by the caller", "format and compression named by the caller"][declared as usize], threads.max(1));
+                    library_reads += 1;
+                    match &first {
+                        None => first = Some((got, what)),
+                        Some((want, how)) => ensure!(
+                            &got == want,
+                            "same call data through the library reader: {what} gives {}, {how} gives {}",
+                            crate::props::c18::describe(&got),
+                            crate::props::c18::describe(want)
+                        ),
+                    }
+                }
+            }
+        }
+    }
     let (r, _) = reference.as_ref().unwrap();
     let mut pass = Pass::new().nontrivial(blocks >= 3);
+    pass.count("library-reads", library_reads);
     pass.count("executions", executions);
     pass.count("ms-render", (t_render * 1000.0) as u64);
     pass.count("ms-total", (t0.elapsed().as_secs_f64() * 1000.0) as u64);
@@ -246,7 +271,7 @@ fn eval(ctx: &Ctx, case: &Case) -> Verdict {
 pub fn check(ctx: &Ctx) -> Check {
     let parts: Vec<Box<dyn Part>> = vec![Box::new(RandomPart {
         name: "containers-transports-threads",
-        rule: "diploid call sets (incl. large cohorts of 120..400 samples so that 64 KiB blocks occur, ~12% call sets that make the run fail, and a quarter with one genotype written as a lone `.`) rendered as vcf / bgzf-vcf / bgzf-bcf / raw bcf with generated BGZF layouts (gzip header fields as htslib writes them or with a time stamp / compression hint / OS byte, one line per block, 1-byte blocks, cuts inside lines and BCF records, 64 KiB payloads, stored/compressed, empty blocks first/middle/last, with and without EOF marker) x {path, stdin from file, stdin from pipe, a pipe named by path (/dev/stdin), a named pipe (mkfifo)} x BCF dictionaries with GT at index 5 or above 127 x --threads from {1,2,3,4,8,16} x repeated executions (unpinned, pinned to one CPU, pinned to two CPUs) x one further option per case (none / --project-shape or -p, printed with 17 decimals / --strict / -vv / -q) x four environments (Turkish/German locale, exotic time zone, RUST_LOG=trace, HOME unset-like, forced colour); >=3 populations of unequal size: ALL executions of a case must have byte-identical stdout and equal exit status (~24 executions per case); non-trivial = an input of >=3 BGZF blocks",
+        rule: "diploid call sets (incl. large cohorts of 120..400 samples so that 64 KiB blocks occur, ~12% call sets that make the run fail, and a quarter with one genotype written as a lone `.`) rendered as vcf / bgzf-vcf / bgzf-bcf / raw bcf with generated BGZF layouts (gzip header fields as htslib writes them or with a time stamp / compression hint / OS byte, one line per block, 1-byte blocks, cuts inside lines and BCF records, 64 KiB payloads, stored/compressed, empty blocks first/middle/last, with and without EOF marker) x {path, stdin from file, stdin from pipe, a pipe named by path (/dev/stdin), a named pipe (mkfifo)} x BCF dictionaries with GT at index 5 or above 127 x --threads from {1,2,3,4,8,16} x repeated executions (unpinned, pinned to one CPU, pinned to two CPUs) x one further option per case (none / --project-shape or -p, printed with 17 decimals / --strict / -vv / -q) x four environments (Turkish/German locale, exotic time zone, RUST_LOG=trace, HOME unset-like, forced colour); >=3 populations of unequal size: ALL executions of a case must have byte-identical stdout and equal exit status (~24 executions per case); non-trivial = an input of >=3 BGZF blocks; the four byte strings also through the library's genotype reader with format and compression detected, or named truthfully by the caller (`set_format`, `set_compression_method`, both), at two thread counts: one result",
         cases: ctx.tier.pick(120, 3000),
         strategy: Box::new(|| strategy().boxed()),
         eval: Box::new(eval),
